@@ -11,6 +11,8 @@ from .common import hx, unhx, rbytes, load_corpus
 
 ID = "C20"
 ENGINE = "zl"
+# companion pass: the negotiation of compression (auth.c) runs on engine conn
+ALSO = [("c20conn", 200)]
 VARIANT = "std"
 STATEFUL = True
 LEVEL = "proof"
